@@ -8,6 +8,8 @@
 //!   1 n_inputs script*  -> [vsize of the dummy transaction]
 //!   2 k j v             -> [FeeRate(k/2^j).fee(v)]
 //!   3 script            -> [minimal_non_dust, len, is_op_return, is_witness_program]
+//!   4 target prefer_under nU (id value)* nI (id offset)* nR id* nL id* nS id*
+//!                       -> select_cardinal_utxo (hook) on the pool = wallet ids minus the nS ones
 //!
 //! Outpoint ids and script codes are mapped to real OutPoints / scripts injectively and in an
 //! order-preserving way (BTreeSet iteration order = id order), and mapped back for the observation.
@@ -486,8 +488,99 @@ pub fn run(line: &Line) -> Outcome {
         cat: "aux/dust".into(),
       }
     }
+    4 => run_select(&mut c),
     _ => Outcome { obs: L::new().p(-1i64).done(), oracle: Ok(()), cat: "trivial/unknown-opcode".into() },
   }
+}
+
+/// opcode 4: the private `select_cardinal_utxo` through the hook, with the clauses of theorem (a)
+/// as oracle.
+fn run_select(c: &mut Cur) -> Outcome {
+  let target = c.u64();
+  let prefer_under = c.bool();
+  let n = c.usize();
+  let us: Vec<(u64, u64)> = (0..n).map(|_| (c.u64(), c.u64())).collect();
+  let n = c.usize();
+  let ins: Vec<(u64, u64)> = (0..n).map(|_| (c.u64(), c.u64())).collect();
+  let n = c.usize();
+  let runic: Vec<u64> = (0..n).map(|_| c.u64()).collect();
+  let n = c.usize();
+  let locked: Vec<u64> = (0..n).map(|_| c.u64()).collect();
+  let n = c.usize();
+  let spent: Vec<u64> = (0..n).map(|_| c.u64()).collect();
+  let mut amounts: BTreeMap<OutPoint, TxOut> = BTreeMap::new();
+  for (id, v) in &us {
+    amounts.insert(outpoint_of(*id), TxOut { value: Amount::from_sat(*v), script_pubkey: script_of(0) });
+  }
+  let values: BTreeMap<u64, u64> = amounts.iter().map(|(o, t)| (id_of(o), t.value.to_sat())).collect();
+  let mut inscriptions: BTreeMap<SatPoint, Vec<InscriptionId>> = BTreeMap::new();
+  for (id, off) in &ins {
+    inscriptions
+      .entry(SatPoint { outpoint: outpoint_of(*id), offset: *off })
+      .or_default()
+      .push(InscriptionId { txid: Txid::from_byte_array([7; 32]), index: 0 });
+  }
+  let change = [
+    Address::from_script(&script_of(0), NETWORK).unwrap(),
+    Address::from_script(&script_of(8), NETWORK).unwrap(),
+  ];
+  let pool: BTreeSet<u64> = values.keys().filter(|i| !spent.contains(i)).copied().collect();
+  let cat = format!("select/{}", if prefer_under { "under" } else { "over" });
+  guarded(&cat.clone(), move || {
+    let builder = TransactionBuilder::new(
+      SatPoint { outpoint: outpoint_of(0), offset: 0 },
+      inscriptions,
+      amounts,
+      locked.iter().map(|i| outpoint_of(*i)).collect(),
+      runic.iter().map(|i| outpoint_of(*i)).collect(),
+      script_of(16),
+      change,
+      FeeRate::try_from(1.0).unwrap(),
+      Target::Postage,
+      NETWORK,
+    );
+    let spent_o: Vec<OutPoint> = spent.iter().map(|i| outpoint_of(*i)).collect();
+    match ord::wallet::transaction_builder::verif::select_cardinal_utxo(builder, &spent_o, target, prefer_under) {
+      Err(e) => {
+        let (kind, detail) = err_obs(&e);
+        // an error is only justified when no cardinal outpoint is left in the pool
+        let any = pool
+          .iter()
+          .any(|i| !runic.contains(i) && !locked.contains(i) && !ins.iter().any(|(o, _)| o == i));
+        Outcome {
+          obs: L::new().p(1u8).p(kind).p(detail).done(),
+          oracle: if any { Err("NotEnoughCardinalUtxos although a cardinal outpoint is in the pool".into()) } else { Ok(()) },
+          cat: format!("{cat}/none"),
+        }
+      }
+      Ok((o, v, rest)) => {
+        let id = id_of(&o);
+        let rest_ids: Vec<u64> = rest.iter().map(id_of).collect();
+        let mut l = L::new().p(0u8).p(id).p(v.to_sat());
+        l.push(rest_ids.len());
+        for r in &rest_ids {
+          l.push(*r);
+        }
+        let oracle = (|| {
+          if !pool.contains(&id) {
+            return Err(format!("{id} was not in the pool"));
+          }
+          if runic.contains(&id) || locked.contains(&id) || ins.iter().any(|(o, _)| *o == id) {
+            return Err(format!("{id} is runic, locked or inscribed"));
+          }
+          if values.get(&id) != Some(&v.to_sat()) {
+            return Err("wrong value".to_string());
+          }
+          let want: Vec<u64> = pool.iter().filter(|i| **i != id).copied().collect();
+          if rest_ids != want {
+            return Err("the pool did not lose exactly the selected outpoint".to_string());
+          }
+          Ok(())
+        })();
+        Outcome { obs: l.done(), oracle, cat: format!("{cat}/some") }
+      }
+    }
+  })
 }
 
 // ------------------------------------------------------------------ generator
@@ -795,6 +888,41 @@ pub fn gen(rng: &mut Rng, tier: &str) -> Vec<Line> {
   for i in 0..n {
     let c = if i % 4 == 3 { gen_targeted(rng) } else { gen_case(rng) };
     v.push(c.line());
+  }
+  // the coin selection alone
+  for _ in 0..n / 6 {
+    let c = gen_case(rng);
+    let target = match rng.below(4) {
+      0 => c.utxos[rng.below(c.utxos.len() as u64) as usize].1,
+      1 => c.utxos[rng.below(c.utxos.len() as u64) as usize].1.saturating_add(1),
+      2 => c.utxos[rng.below(c.utxos.len() as u64) as usize].1.saturating_sub(1),
+      _ => rng.range(0, 30_000),
+    };
+    let mut l = L::new().p(4u8).p(target).p(rng.chance(1, 2));
+    l.push(c.utxos.len());
+    for (a, b) in &c.utxos {
+      l.push(*a);
+      l.push(*b);
+    }
+    l.push(c.inscr.len());
+    for (a, b) in &c.inscr {
+      l.push(*a);
+      l.push(*b);
+    }
+    l.push(c.runic.len());
+    for a in &c.runic {
+      l.push(*a);
+    }
+    l.push(c.locked.len());
+    for a in &c.locked {
+      l.push(*a);
+    }
+    let spent: Vec<u64> = c.utxos.iter().filter(|_| rng.chance(1, 5)).map(|u| u.0).collect();
+    l.push(spent.len());
+    for a in &spent {
+      l.push(*a);
+    }
+    v.push(l.done());
   }
   v
 }
